@@ -194,7 +194,7 @@ theorem matchInit_eq_spec (root rs : List String) (f : File) (hrs : rs ≠ [])
     · simp [hs]
 #print axioms matchInit_eq_spec
 
-theorem filter_congr' {p q : File → Bool} (l : List File) (h : ∀ f ∈ l, p f = q f) : l.filter p = l.filter q := by
+theorem filter_congr2 {p q : File → Bool} (l : List File) (h : ∀ f ∈ l, p f = q f) : l.filter p = l.filter q := by
   induction l with
   | nil => rfl
   | cons a r ih =>
@@ -210,9 +210,9 @@ theorem resolve_empty_iff_spec (files : List File) (root cur rs : List String) (
     resolveRequire files root cur rs = [] ↔ specCandidates files rs = [] := by
   rw [diag_iff_no_match]
   have e1 : files.filter (matchPre root rs) = files.filter (specLua rs) :=
-    filter_congr' files fun f hf => matchPre_eq_spec root rs f (hp f hf) (by have := hlen f hf; omega)
+    filter_congr2 files fun f hf => matchPre_eq_spec root rs f (hp f hf) (by have := hlen f hf; omega)
   have e2 : files.filter (matchSuf root (rs ++ ["init.lua"])) = files.filter (specInit rs) :=
-    filter_congr' files fun f hf => matchInit_eq_spec root rs f hrs (hname f hf) (hlen f hf)
+    filter_congr2 files fun f hf => matchInit_eq_spec root rs f hrs (hname f hf) (hlen f hf)
   rw [e1, e2]
   unfold specCandidates
   constructor
